@@ -135,10 +135,15 @@ class Folder:
                 if self._t(v):
                     return v
             return v
+        if isinstance(n, ast.IfExp):
+            return self.ev(n.body) if self.truth(n.test) else self.ev(n.orelse)
         if isinstance(n, ast.Compare):
             left = self.ev(n.left)
             for op, c in zip(n.ops, n.comparators):
                 right = self.ev(c)
+                if isinstance(left, Opaque) or isinstance(right, Opaque):
+                    # a comparison with a value the analysis does not model is itself unknown (never silently False / True)
+                    return OPAQUE
                 if isinstance(op, ast.Is):
                     r = left is right
                 elif isinstance(op, ast.IsNot):
